@@ -379,6 +379,42 @@ def synthetic_rc(ctx, r, lines, expect):
     ctx.cov.hit("rc-synthetic" + (":out-of-range-label" if bad and (rl.max() >= na or cl.max() >= nb) else ""))
 
 
+def multi_epoch(ctx):
+    """several epochs (max_iter >= 2) with a correlation threshold high enough that rows change cluster between
+    epochs: shapes, partition and membership must still hold (oracle only; the model covers one pass)"""
+    from artlib import BARTMAP, FuzzyART
+    cov = ctx.cov
+    for i in range(ctx.scale(10, 120)):
+        r = gen.rng_for(ctx.seed, "C17/epochs", i)
+        n = r.choice([16, 24, 32])
+        X = np.array([[r.random() for _ in range(n)] for _ in range(n)])
+        eta = r.choice([0.1, 0.2, 0.3])
+        k = r.choice([2, 3])
+        rep = {"n": n, "eta": eta, "max_iter": k, "X": X.tolist()}
+        bm = BARTMAP(FuzzyART(0.5, 0.01, 1.0), FuzzyART(0.3, 0.01, 1.0), eta)
+        try:
+            with quiet():
+                bm.fit(X, max_iter=k)
+        except Exception as e:
+            cov.hit("epochs:raised:" + classify(e, X, bm))
+            continue
+        rl, cl = np.asarray(bm.row_labels_), np.asarray(bm.column_labels_)
+        na, nb = int(bm.n_row_clusters), int(bm.n_column_clusters)
+        rows_, cols_ = np.asarray(bm.rows_), np.asarray(bm.columns_)
+        if rows_.shape != (na * nb, n) or cols_.shape != (na * nb, n):
+            ctx.issue("violation", "BARTMAP.fit:shapes", f"max_iter={k}: rows_ {rows_.shape} columns_ {cols_.shape}, na*nb={na * nb}", rep)
+            continue
+        cover = rows_.astype(int).T @ cols_.astype(int)
+        if not np.all(cover == 1):
+            a, b = [int(t) for t in np.argwhere(cover != 1)[0]]
+            ctx.issue("violation", "BARTMAP.fit:partition", f"max_iter={k}: cell ({a},{b}) lies in {int(cover[a, b])} biclusters", rep)
+        elif any(not (np.array_equal(rows_[a * nb + b], rl == a) and np.array_equal(cols_[a * nb + b], cl == b))
+                 for a in range(na) for b in range(nb)):
+            ctx.issue("violation", "BARTMAP.fit:membership", f"max_iter={k}: a bicluster differs from the label pre-images", rep)
+        cov.hit("epochs:fit-returned")
+        cov.case(("epochs", n, eta, k, i), True)
+
+
 def run(ctx):
     from collections import defaultdict
     stats = defaultdict(int)
@@ -432,3 +468,4 @@ def run(ctx):
     ]
     ctx.trusted += ["numpy boolean-mask equality and np.vstack (one-line model: rowsOf/columnsOf)",
                     "scipy.stats.pearsonr (not modelled; enters as oracle)"]
+    multi_epoch(ctx)
